@@ -83,3 +83,18 @@ prop("C10", "exploration",
 prop("C01", "exploration",
      "real requestor (store = random subset of the DAG, sometimes failing commits, sometimes pausing at a block and resuming) against a scripted adversarial responder that speaks through the real codec: it computes the honest response stream with the reference traversal and applies 0-4 mutations drawn from {swap, drop, duplicate, wrong action, forged bytes, block of an unrelated DAG under the expected CID, invented entry, same bytes under another CID prefix, misplaced DAG block, withheld block}, cuts it into 1-4 entry messages, and varies the terminal status (early, repeated, failure codes), message replay and responses under a foreign request ID; oracle: delivered nodes are an in-order subsequence of the genuine traversal, every commit hashes to its link and carries the genuine bytes, commits are an in-order subsequence of the reference link loads; distinct = distinct trace hash",
      _b(1200, 90, 50000, 1200), probes=["c01-blocks-stored", "c01-complete-delivery", "c01-incorrect-response-detected", "c01-resumed-against-adversary"])
+
+prop("C13", "exploration",
+     "component harness: the real allocator.Allocator driven through generated histories (5-45 operations) of allocate (amounts 1,2,3,5 units and one above the per-peer limit) / release (also more than held) / release-peer by 2-4 peers under drawn total and per-peer limits, compared after every operation with an executable model written from the property statement: limits, Stats(), AllocatedForPeer, pending bytes and peers, all zero once everything is released; operations are atomic under the allocator's lock so histories are sequential and the comparison is exact; distinct = distinct trace hash (history + limits)",
+     _b(3000, 60, 200000, 900), technique="seeded operation histories against an executable reference model (real component, no stubs)")
+prop("C14", "exploration",
+     "same harness as C13; after every operation the state of every result channel handed out so far (granted / failed / not yet) is compared with the model's prediction: immediate grant iff it fits both limits and the peer has nothing waiting; per-peer FIFO; earliest-requested head that fits its own peer's limit first; stop when it does not fit the total; release-peer fails all of that peer's waiters at once",
+     _b(3000, 60, 200000, 900), technique="seeded operation histories against an executable reference model (real component, no stubs)")
+
+prop("C18", "exploration",
+     "component harness: the real notifications publisher with 2-4 topics and 2-4 recording subscribers whose OnNext/OnClose park at scheduler gates (a slow subscriber lets commands pile up behind it); generated histories of 5-40 subscribe / publish / unsubscribe / close-topic / shutdown calls; every subscriber's per-topic sequence of events and end-of-subscription notices is compared with an executable model evaluated over the issue order; distinct = distinct trace hash",
+     _b(3000, 60, 200000, 900), technique="seeded operation histories and callback schedules against an executable reference model (real component; subscribers are stubs)")
+
+prop("C19", "exploration",
+     "component harness: the real response assembler (peerLinkTracker + linktracker + responseBuilder) driven through ResponseStream transactions with a capturing message handler; generated histories (10-60 operations) interleave link traversals (6 CIDs, present or missing) of 2-5 requests of one peer with dedup-key assignments (two keys and the default scope), ignore lists, skip counts, FinishRequest and ClearRequest, then one later request that re-traverses everything; each send decision, block index and completeness status is compared with an executable model written from the statement; distinct = distinct trace hash",
+     _b(3000, 60, 200000, 900), technique="seeded operation histories against an executable reference model (real component; message handler and subscriber are stubs)")
